@@ -29,24 +29,29 @@ PROP = "C17"
 # with "strict": true ignores all of them (use that for reproducer cases).
 # ------------------------------------------------------------------------------------------
 
+def _open(fid):
+    """A deviation is masked only while its finding is listed as open in known_findings.json."""
+    return any(f["id"] == fid for f in core.open_findings("C17"))
+
+
 # `import a.b` (no alias) stores the leaf module under the key "a.b" of the symbol table; CPython binds the
 # top-level package `a`.  Minimal: `import homeassistant.const` -> name `homeassistant` is undefined.
-KNOWN_FINDING_DOTTED_IMPORT_BINDS_DOTTED_KEY = True
+KNOWN_FINDING_DOTTED_IMPORT_BINDS_DOTTED_KEY = _open('C17-dotted-import-binds-dotted-key')
 # `from m import *` ignores m.__all__ and binds every non-underscore name of m.__dict__.
 # Minimal: `from json import *` also binds codecs, decoder, encoder, scanner, detect_encoding.
-KNOWN_FINDING_STAR_IGNORES_DUNDER_ALL = True
+KNOWN_FINDING_STAR_IGNORES_DUNDER_ALL = _open('C17-star-ignores-dunder-all')
 # `from m import name` is a plain getattr: a missing name raises AttributeError (CPython: ImportError) and a
 # submodule that is not loaded yet is not imported.  Minimal: `from json import zz_missing_name`, `from json import tool`.
-KNOWN_FINDING_FROM_IMPORT_IS_PLAIN_GETATTR = True
+KNOWN_FINDING_FROM_IMPORT_IS_PLAIN_GETATTR = _open('C17-from-import-plain-getattr')
 # `from .m import x` inside an app falls back to the absolute module m when no pyscript file matches.
 # Minimal (app context): `from .json import dumps` binds the standard library's json.dumps.
-KNOWN_FINDING_RELATIVE_FALLS_BACK_TO_ABSOLUTE = True
+KNOWN_FINDING_RELATIVE_FALLS_BACK_TO_ABSOLUTE = _open('C17-relative-falls-back-to-absolute')
 # lambda and @pyscript_compile bodies are native Python (documented): excluded builtins are readable there.
 # Minimal: `x = (lambda: open)()`.
-KNOWN_FINDING_NATIVE_BODY_READS_BUILTINS = True
+KNOWN_FINDING_NATIVE_BODY_READS_BUILTINS = _open('C17-native-body-reads-builtins')
 # After the first lambda / @pyscript_compile definition the script's globals contain `__builtins__`.
 # Minimal: `f = lambda: 1` then `x = __builtins__['open']`.
-KNOWN_FINDING_BUILTINS_DICT_GLOBAL_AFTER_NATIVE_DEF = True
+KNOWN_FINDING_BUILTINS_DICT_GLOBAL_AFTER_NATIVE_DEF = _open('C17-builtins-dict-global-after-native-def')
 
 MNFE = "ModuleNotFoundError"
 
